@@ -178,6 +178,10 @@ class DyadCarrier(object):
             raise ValueError("Setting entries to other than 0 makes no sense")
         if not isnullslice(subscript[0]) and not isnullslice(subscript[1]):
             raise IndexError("Only full-column or full-row slices can be set, e.g. [:, 3] or [3:8, :]")
+        if isnullslice(subscript[0]) and isnullslice(subscript[1]):  # A[:, :] = 0 clears everything
+            self.u.clear()
+            self.v.clear()
+            return
         for ui, vi in zip(self.u, self.v):
             if not isnullslice(subscript[0]):
                 ui[subscript[0]] = value
@@ -406,7 +410,7 @@ class DyadCarrier(object):
     def contract_multi(self, mats: List[spmatrix], dtype=None):
         """ Faster version of contraction for a list of sparse matrices """
         if dtype is None:
-            dtype = np.result_type(self.dtype, mats[0].dtype)
+            dtype = np.result_type(self.dtype, *[m.dtype for m in mats if m is not None])
         val = np.zeros(len(mats), dtype=dtype)
 
         if len(self.u) == 0 or len(self.v) == 0:
